@@ -251,6 +251,15 @@ class Sym:
             if c == 0:
                 raise ZeroDivisionError('symbolic division by constant zero')
             return Sym.const(1 / c)
+        if W.imag is not None and W.imag in s.atoms():
+            # 1/(a + ib) = (a - ib)/(a^2 + b^2): keep every inverse atom real-valued (all non-I atoms are real)
+            cj = s.conjugate()
+            nrm = _mul(s, cj)
+            re, im = nrm.re_im()
+            if im.t:
+                raise ValueError('conjugate product is not real; an atom is complex-valued')
+            if len(s.t) > 1 or any(W.kind[i] != 'imag' for i, _ in next(iter(s.t))):
+                return _mul(cj, re.inv())
         if len(s.t) == 1:
             (m, c), = s.t.items()
             r = Sym.const(1 / c)
